@@ -132,7 +132,7 @@ def run(tier, seed):
     laws_future = pool.submit(check_laws, size)
 
     # quick: one TLC process generates all parts of the case space; thorough: one process per part
-    parts = [0] if tier != "thorough" else [1, 2, 3, 4, 5, 6, 7]
+    parts = [0] if tier != "thorough" else [1, 2, 3, 4, 5, 6, 7, 8]
     with ThreadPoolExecutor(len(parts)) as ex:
         gens = list(ex.map(lambda p: b3.gen_cases("JoinGen", dict(size["gen"], Part=p), timeout=6000, seed=seed), parts))
     seen, cases = set(), []
@@ -159,6 +159,8 @@ def run(tier, seed):
     for x, r in zip(cases, res):
         obs.append({"c": x["c"], "left": x["left"], "right": x["right"], "out": parse_dkvp(r["stdout"], x["c"]["ifs"]),
                     "exit": -2 if r["timed_out"] else r["exit"]})
+        if "law" in x:                      # a case judged by a law only (JoinCases.tla, collision family)
+            obs[-1]["law"] = x["law"]
     bad, n = b3.validate("JoinObs", obs, chunk=4000, threads=int(os.environ.get("VERIF_JOBS", "8")))
     states += n
     transitions += n
